@@ -674,11 +674,7 @@ func (x *Exec) next(fr *Frame, st *State, i *ssa.Next) *Val {
 		s := it.Iter.str
 		pos := st.cells[it.Loc.Cell]
 		ok := App(SBool, "bvult", pos, App(SBV64, "gs.len", s))
-		x.sc.Decl("rune", `(declare-fun rune.len (Str (_ BitVec 64)) (_ BitVec 64))
-(declare-fun rune.at (Str (_ BitVec 64)) (_ BitVec 32))
-(assert (forall ((s Str) (i (_ BitVec 64))) (! (and (bvuge (rune.len s i) #x0000000000000001) (bvule (rune.len s i) #x0000000000000004)) :pattern ((rune.len s i)))))
-(assert (forall ((s Str) (i (_ BitVec 64))) (! (=> (bvult (gs.at s i) #x80) (and (= (rune.len s i) #x0000000000000001) (= (rune.at s i) ((_ zero_extend 24) (gs.at s i))))) :pattern ((rune.at s i)) :pattern ((rune.len s i)))))
-(assert (forall ((s Str) (i (_ BitVec 64))) (! (=> (bvuge (gs.at s i) #x80) (bvuge (rune.at s i) #x00000080)) :pattern ((rune.at s i)))))`)
+		x.runeDecl()
 		x.assumeNote("range over string: UTF-8 decoding summarised by rune.len/rune.at (ASCII exact, others 1..4 bytes, value >= 0x80)")
 		rl := App(SBV64, "rune.len", s, pos)
 		// a rune never extends beyond the string
@@ -693,4 +689,12 @@ func (x *Exec) next(fr *Frame, st *State, i *ssa.Next) *Val {
 		return x.mapNext(fr, st, it, tup)
 	}
 	panic("next")
+}
+
+func (x *Exec) runeDecl() {
+	x.sc.Decl("rune", `(declare-fun rune.len (Str (_ BitVec 64)) (_ BitVec 64))
+(declare-fun rune.at (Str (_ BitVec 64)) (_ BitVec 32))
+(assert (forall ((s Str) (i (_ BitVec 64))) (! (and (bvuge (rune.len s i) #x0000000000000001) (bvule (rune.len s i) #x0000000000000004)) :pattern ((rune.len s i)))))
+(assert (forall ((s Str) (i (_ BitVec 64))) (! (=> (bvult (gs.at s i) #x80) (and (= (rune.len s i) #x0000000000000001) (= (rune.at s i) ((_ zero_extend 24) (gs.at s i))))) :pattern ((rune.at s i)) :pattern ((rune.len s i)))))
+(assert (forall ((s Str) (i (_ BitVec 64))) (! (=> (bvuge (gs.at s i) #x80) (bvuge (rune.at s i) #x00000080)) :pattern ((rune.at s i)))))`)
 }
